@@ -119,6 +119,26 @@ class _Win(Entry):
                 "y": [self.gen_y(rng, n) for _ in range(T)] if self.has_y else [],
                 "w": w, "wmode": mode}
 
+    def filter_ops(self, ops):
+        """load_state_dict INTO an object whose buffers a merge has enlarged leaves the un-registered cursor beyond the
+        (smaller) loaded buffers: the next update() raises IndexError.  That is the recorded finding
+        C09-window-cursor-not-in-state-dict (the cursor is not part of state_dict()) in a situation outside every
+        property (C09 is about loading into a FRESH instance); the value models do not follow it, so such loads are
+        not generated.  reset() / re-construction / clone / pickle into the object clear the condition."""
+        merged, out = set(), []
+        for o in ops:
+            k = o[0]
+            if k == "merge":
+                merged.add(o[1])
+            elif k in ("reset", "new"):
+                merged.discard(o[1])
+            elif k in ("clone", "pickle"):
+                (merged.add if o[1] in merged else merged.discard)(o[2])
+            elif k == "load" and o[1] in merged:
+                continue
+            out.append(o)
+        return out
+
     def update(self, metric, cfg, batch):
         """The harness is a caller that REUSES its batch tensors: after update() returns, every
         tensor it passed is overwritten.  A metric that adopted one of them by reference instead
